@@ -105,7 +105,10 @@ COMMENT_DECOYS = ["// info!(\"commented\");", "/* warn!(\"commented\"); */", "//
                   "/* multi\n   info!(\"line\");\n   comment */", "//info!(\"tight\")", "/** trace!(\"docblock\") */",
                   "// log::info!(target: \"t\", \"x\");",
                   # a bare CR does not end a line comment (only \n does): the text after it is still comment
-                  "// cr\rinfo!(\"after a bare cr\");", "// x\r    warn!(\"still comment\");"]
+                  "// cr\rinfo!(\"after a bare cr\");", "// x\r    warn!(\"still comment\");",
+                  # ... nor do the other characters some editors treat as line ends
+                  "// ls\u2028info!(\"after U+2028\");", "// ps\u2029warn!(\"after U+2029\");",
+                  "// nel\u0085error!(\"after U+0085\");", "// ff\x0cinfo!(\"after form feed\");"]
 DIRECTIVES = {
     "ignore": ["// breadlog:ignore", "//breadlog:ignore", "//   BREADLOG:IGNORE   ", "/* breadlog:ignore */",
                "/*Breadlog:Ignore*/", "// BreadLog:IGNORE"],
